@@ -24,7 +24,11 @@ type Job struct {
 	Tags   []string `json:"tags,omitempty"`
 	ScriptFile string `json:"script_file,omitempty"` // session jobs: the script file; Script is then the line sent to the repl
 	Argv   []string `json:"argv,omitempty"` // command line template of the binary (@SCRIPT@ / @TEXT@), when not the default
+	Hist   string   `json:"hist,omitempty"` // cfg "fam": the family history and the target member (family.go)
 }
+
+// Key: jobs with the same key may share one interpreter (family) in a worker.
+func (j *Job) Key() string { return j.Cfg + "\x00" + j.Hist + "\x00" + j.Entry }
 
 // Input is the tab-free case input: "<cfg> <abstract program> :: <script>".
 func (j *Job) Input() string {
@@ -35,6 +39,9 @@ func (j *Job) Input() string {
 	}
 	if len(j.Argv) > 0 {
 		s = "zygo " + strings.Join(j.Argv, " ") + " ;; " + s
+	}
+	if j.Cfg == "fam" {
+		return "fam " + j.Hist + " " + j.Abs + " :: [" + j.Hist + "] " + s
 	}
 	return j.Cfg + " " + j.Abs + " :: " + s
 }
@@ -59,17 +66,29 @@ const (
 	aRawTrunc = `(unbase64 "pWE=")`
 	aSymFile  = symFileName
 	aQSymFile = `(quote ` + symFileName + `)`
+	// structured data (per-arity branches: a value to encode + a path to put it)
+	aHash   = `(hash a: 1)`
+	aArrInt = `[1 2]`
+	// names / paths with the decorations a shell or a template engine expands: as symbol and as string
+	aDollarSym = `(quote $` + envName + `)`
+	aDollarStr = `"$` + envName + `"`
+	aBraceStr  = `"${` + envName + `}"`
+	aDollarArr = `[(quote $` + envName + `)]`
 )
 
-var pool1 = []string{aSecret, aOut, aExisting, aCmd, aEnv, aNewVar, aVal, aInt, aArr, aSym, aBuilt, aSymFile, aQSymFile, aSecretMP, aRawBad, aRawTrunc}
+var pool1 = []string{aSecret, aOut, aExisting, aCmd, aEnv, aNewVar, aVal, aInt, aArr, aSym, aBuilt, aSymFile, aQSymFile, aSecretMP, aRawBad, aRawTrunc,
+	aHash, aDollarSym, aDollarStr, aBraceStr, aDollarArr}
 
 var pool2 = [][]string{
 	{aSecret, aOut}, {aOut, aSecret}, {aOut, aVal}, {aExisting, aVal}, {aEnv, aVal}, {aNewVar, aVal},
 	{aVal, aOut}, {aVal, aExisting}, {aCmd, aVal}, {aSecret, aSecret}, {aInt, aInt}, {aVal, aSecret},
+	// (value, path) and (path, value) for every kind of value: arity-dependent branches that reach a file
+	{aHash, aOut}, {aHash, aExisting}, {aHash, aSecret}, {aOut, aHash}, {aArrInt, aOut}, {aInt, aOut}, {aRawBad, aOut}, {aOut, aArrInt},
 }
 
 var pool3 = [][]string{
 	{aOut, aVal, aVal}, {aVal, aOut, aVal}, {aNewVar, aVal, aVal}, {aSecret, aOut, aVal}, {aVal, aVal, aSecret}, {aExisting, aVal, aInt},
+	{aHash, aOut, aVal}, {aOut, aHash, aVal}, {aHash, aVal, aOut},
 }
 
 func allShapes() [][]string {
@@ -82,12 +101,30 @@ func allShapes() [][]string {
 	return sh
 }
 
+// the unrestricted control configuration: the shapes of the earlier rounds plus one of each new class
+func controlShapes() [][]string {
+	sh := [][]string{{}}
+	for _, a := range pool1 {
+		if a == aDollarStr || a == aBraceStr || a == aDollarArr {
+			continue
+		}
+		sh = append(sh, []string{a})
+	}
+	sh = append(sh, pool2[:12]...)
+	sh = append(sh, []string{aHash, aOut})
+	sh = append(sh, pool3[:6]...)
+	return sh
+}
+
 func smallShapes() [][]string {
 	sh := [][]string{}
 	for _, a := range pool1 {
+		if a == aDollarStr || a == aBraceStr || a == aDollarArr {
+			continue
+		}
 		sh = append(sh, []string{a})
 	}
-	sh = append(sh, []string{aOut, aVal}, []string{aNewVar, aVal})
+	sh = append(sh, []string{aOut, aVal}, []string{aNewVar, aVal}, []string{aHash, aOut})
 	return sh
 }
 
@@ -98,7 +135,8 @@ func quickShapes() [][]string {
 
 func shapeTag(args []string) string {
 	n := map[string]string{aSecret: "secret", aOut: "out", aExisting: "existing", aCmd: "cmd", aEnv: "env", aNewVar: "newvar",
-		aVal: "val", aInt: "int", aArr: "arr", aSym: "sym", aBuilt: "built", aSymFile: "symfile", aQSymFile: "qsymfile", aSecretMP: "secretmp", aRawBad: "rawbad", aRawTrunc: "rawtrunc"}
+		aVal: "val", aInt: "int", aArr: "arr", aSym: "sym", aBuilt: "built", aSymFile: "symfile", aQSymFile: "qsymfile", aSecretMP: "secretmp", aRawBad: "rawbad", aRawTrunc: "rawtrunc",
+		aHash: "hash", aArrInt: "arrint", aDollarSym: "dollarsym", aDollarStr: "dollarstr", aBraceStr: "bracestr", aDollarArr: "dollararr"}
 	var p []string
 	for _, a := range args {
 		p = append(p, n[a])
@@ -152,6 +190,8 @@ func forms(cfg, kind, name string, args []string, all bool) []Job {
 			"(q (d c08t (s defmac (e "+absCall+"))) (c r:c08t))"),
 		mk("macro-time-call", []string{"(defmac c08u [] (begin " + call + " nil))"}, "(macexpand (c08u))",
 			"(q (d c08u (s defmac (s begin "+absCall+"))) (s macexpand (c r:c08u)))"),
+		// compiled and run in the duplicate the expectError builder makes (builders.go ExpectErrorBuilder)
+		mk("expect-error", nil, "(expectError \"c08\" "+call+")", "(c r:expectError k "+absCall+")"),
 		mk("begin-nested", nil, "(begin (let [c08x 1] (cond true "+call+" 0)))", "(s begin (s let (s cond "+absCall+")))"),
 	)
 	if kind == "special" || kind == "macro" {
@@ -181,7 +221,11 @@ type Entry struct{ Kind, Name string }
 // entryJobs: the systematic part of the search for one entry.
 func entryJobs(cfg string, e Entry, tier string, control bool) []Job {
 	var js []Job
-	for _, sh := range allShapes() {
+	shs := allShapes()
+	if control && tier != "thorough" {
+		shs = controlShapes()
+	}
+	for _, sh := range shs {
 		js = append(js, forms(cfg, e.Kind, e.Name, sh, false)...)
 	}
 	if control {
